@@ -62,9 +62,17 @@ func framesPart(r *ev.Report) {
 						return
 					}
 					d.Keys(seq)
-					// a resize in the reached state redraws the frame at another height
+					// a resize in the reached state redraws the frame at another height; a fixed
+					// epilogue then shows every kind of screen (command, selection, loading through
+					// :open and through opening a link, normal) after each height change
+					epilogue := ""
+					if len(seq) <= 1 { // from the start state and from every state one key away
+						epilogue = ":x\x1b1\x1b:open " + w.Starts()[0].Arg + "\r1.j"
+					}
 					d.Resize(30, h+1)
+					d.Keys(epilogue)
 					d.Resize(30, h)
+					d.Keys(epilogue)
 				})
 				runs++
 				if out.Panic != "" || out.Deadlock {
